@@ -234,7 +234,7 @@ def taupf (tau es : α) : α :=
   let sig := RealLike.sinh (eatanhe (tau / tau1) es)
   RealLike.hypot (1 : α) sig * tau - sig * tau1
 
-/-- `Math::tauf`: Newton iteration, at most 5 steps; `ε = 2⁻⁵²` -/
+/-- `Math::tauf`: Newton iteration, at most 50 steps (`numit`, fix 707b423); `ε = 2⁻⁵²` -/
 def tauf (taup es : α) : α :=
   let sqeps : α := (1 : α) / RealLike.ofNat (2 ^ 26)
   let tol := sqeps / 10
@@ -242,7 +242,8 @@ def tauf (taup es : α) : α :=
   let e2m := (1 : α) - es * RealLike.abs es
   let tau0 := if RealLike.ltb (70 : α) (RealLike.abs taup) then taup * RealLike.exp (eatanhe (1 : α) es) else taup / e2m
   let stol := tol * RealLike.max (1 : α) (RealLike.abs taup)
-  if !(RealLike.ltb (RealLike.abs tau0) taumax) then tau0 else
+  -- the early exit is only valid for the asymptotic guess (|taup| > 70): fix b3c5a1d
+  if !(RealLike.ltb (RealLike.abs tau0) taumax) && !(RealLike.leb (RealLike.abs taup) (70 : α)) then tau0 else
   let rec go : Nat → α → α
     | 0, tau => tau
     | fuel + 1, tau =>
@@ -250,7 +251,7 @@ def tauf (taup es : α) : α :=
       let dtau := (taup - taupa) * ((1 : α) + e2m * (tau * tau)) / (e2m * RealLike.hypot (1 : α) tau * RealLike.hypot (1 : α) taupa)
       let tau := tau + dtau
       if !(RealLike.leb stol (RealLike.abs dtau)) then tau else go fuel tau
-  go 5 tau0
+  go 50 tau0
 
 def deg : α := RealLike.ofNat 180 / RealLike.pi
 
